@@ -167,13 +167,13 @@ class SplineInterpolator1D():
             for i, x in enumerate(xgrid):
                 span, offset = cu_find_span(xmin, xmax, dx, x, ncells)
                 cu_basis_funs(span, offset, basis)
-                mat[i, js(span)] = basis
+                np.add.at(mat[i], js(span), basis)
         else:
             # Fill in non-zero matrix values
             for i, x in enumerate(xgrid):
                 span = nu_find_span(knots, degree, x)
                 nu_basis_funs(knots, degree, x, span, basis)
-                mat[i, js(span)] = basis
+                np.add.at(mat[i], js(span), basis)
 
         return mat
 
